@@ -183,7 +183,8 @@ class Ctx:
                 f.write(json.dumps(ev, separators=(",", ":")) + "\n")
         if os.path.exists(vf):
             os.unlink(vf)
-        res = self.tlc(module, cfg, env={"XCV_TRACE": tr, "XCV_VERDICT": vf}, workers=1, timeout=timeout)
+        res = self.tlc(module, cfg, env={"XCV_TRACE": tr, "XCV_VERDICT": vf}, workers=1, timeout=timeout,
+                       heap="8g" if os.path.getsize(tr) > 30_000_000 else "4g")
         if not os.path.exists(vf):
             o = res["out"]
             i = o.find("Error:")
